@@ -92,10 +92,11 @@ def alphabet(seed):
 USER = lambda f: f in ("f1", "f2", "ns.f1") or f.startswith("g(")  # noqa
 
 D_ALL = [None, [], ["str"], ["f3"], ["f3", "h"], ["decode.utf8"]]
-P_ALL = [None, ["f4"], ["f4", "x"], ["n"], ["n", "f4"]]
+P_ALL = [None, ["f4"], ["f4", "x"], ["n"], ["n", "f4"], ["f4", "n"]]
 POSITIONS = ["body", "def", "block", "nblock", "call"]
 B_ALL = [[], ["f5"], ["f5", "trim"]]
 D_SUB = [None, [], ["f3", "h"]]
+P_SUB = [None, ["f4", "x"], ["n", "f4"]]
 
 
 def lists_upto(filters, k):
@@ -182,18 +183,22 @@ def tagf_prog(L, cons, ce, B, D, P):
 def gen_pipe(tier, seed):
     """yield (prog, value indexes)"""
     F, _ = alphabet(seed)
-    full_k, sub_k = (2, 3) if tier == "quick" else (3, 4)
+    quick = tier == "quick"
+    full_k, sub_k = (2, 3) if quick else (3, 4)
     for L in lists_upto(F, full_k):
+        # quick: the two block positions only for lists of <= 1 filter
+        poss = POSITIONS if not quick or len(L) <= 1 else ["body", "def", "call"]
+        Ps = P_ALL if not quick or len(L) <= 1 else P_ALL[:5]
         for D in D_ALL:
-            for P in P_ALL:
-                for pos in POSITIONS:
+            for P in Ps:
+                for pos in poss:
                     yield pipe_prog(L, D, P, pos), (0, 1, 2, 3, 4)
     for L in itertools.product(F, repeat=sub_k):
         L = list(L)
         if not special(L):
             continue
         for D in D_SUB:
-            for P in P_ALL:
+            for P in P_SUB if quick else P_ALL:
                 yield pipe_prog(L, D, P, "body"), (0, 2)
 
 
@@ -204,6 +209,8 @@ def gen_tagf(tier, seed):
     Ps = [None, ["n", "f4"]] if tier == "quick" else [None, ["f4"], ["n", "f4"]]
     for L in lists_upto(F, k):
         for cons, ce in TAG_CONSTRUCTS:
+            if tier == "quick" and (cons, ce) == ("def-f", ["n"]):
+                continue
             Bs = B_ALL if cons.startswith("def") else [B_ALL[2]]
             for B in Bs:
                 for D in Ds:
@@ -242,6 +249,19 @@ def gen_bind(tier, seed):
                 p = pipe_prog(L, D, P, pos, decoy=True)
                 p["fam"] = "decoy"
                 yield p, (0, 1)
+    # a stage of the documented composition raises: the render must raise too
+    for L in (["boom"], ["f1", "boom"], ["boom", "f1"], ["n", "boom"], ["decode.ascii"], ["n", "decode.ascii", "f1"], ["n", "f1", "decode.ascii"]):
+        for pos in POSITIONS:
+            for D, P in DP:
+                for bind in ("ctx", "module"):
+                    p = pipe_prog(L, D, P, pos, bind=bind)
+                    p["fam"] = "bind"
+                    yield p, (0, 3)
+    for L in (["boom"], ["f1", "boom"], ["decode.ascii"]):
+        for cons, ce in TAG_CONSTRUCTS:
+            p = tagf_prog(L, cons, ce, ["f5"], None, None)
+            p["fam"] = "bind"
+            yield p, (0,)
     # filter= attributes naming module-level / imported callables
     for L in lists_upto(F, 1):
         if any(USER(f) for f in L):
